@@ -45,6 +45,7 @@ type Case struct {
 	Shallow []int // commit indices marked shallow in the store (empty = non-shallow store)
 	Pruned  bool  // shallow store only: objects reachable only through the parents of shallow commits are absent
 	Git     bool  // cross-check the reference model with git rev-list --objects
+	Recur   bool  `json:",omitempty"` // history drawn from the subtree-recurrence family (dagx.GenRecur)
 }
 
 func genPick(t *rapid.T, n int, have bool) Pick {
@@ -67,7 +68,43 @@ func genPick(t *rapid.T, n int, have bool) Pick {
 // to be present, so objects it shares with them are not selected.
 const sigShallowParent = "C37/shallow-store/omits-object-shared-with-present-parent-of-shallow-commit"
 
+// genRecur draws a case of the subtree-recurrence family: wants among the last
+// commits, at least one have that is a commit (so that the incremental walk runs),
+// haves biased to the first commits (the unrelated root, the root of the main
+// line, early ancestors) but also anywhere, plus the usual kinds.
+func genRecur(t *rapid.T) Case {
+	c := Case{Recur: true, Spec: dagx.GenRecur(t, dagx.GenOpts{MaxTags: 2})}
+	n := len(c.Spec.Commits)
+	nw := rapid.IntRange(1, 4).Draw(t, "nwants")
+	if nw > 2 {
+		nw = 1
+	}
+	for i := 0; i < nw; i++ {
+		if rapid.IntRange(0, 5).Draw(t, "wantany") == 0 {
+			c.Wants = append(c.Wants, genPick(t, n, false))
+			continue
+		}
+		c.Wants = append(c.Wants, Pick{Kind: pCommit, Idx: n - 1 - rapid.IntRange(0, 2).Draw(t, "wantback")})
+	}
+	nh := rapid.IntRange(1, 3).Draw(t, "nhaves")
+	for i := 0; i < nh; i++ {
+		switch k := rapid.IntRange(0, 9).Draw(t, "havek"); {
+		case k < 5 || i == 0 && k < 8:
+			c.Haves = append(c.Haves, Pick{Kind: pCommit, Idx: rapid.IntRange(0, min(2, n-1)).Draw(t, "haveearly")})
+		case k < 8 || i == 0:
+			c.Haves = append(c.Haves, Pick{Kind: pCommit, Idx: rapid.IntRange(0, n-1).Draw(t, "haveany")})
+		default:
+			c.Haves = append(c.Haves, genPick(t, n, true))
+		}
+	}
+	c.Git = rapid.IntRange(0, 49).Draw(t, "gitk") == 49
+	return c
+}
+
 func gen(t *rapid.T, r *evid.Recorder) Case {
+	if rapid.IntRange(0, 9).Draw(t, "familyk") < 2 {
+		return genRecur(t)
+	}
 	c := Case{Spec: dagx.Gen(t, dagx.GenOpts{MaxCommits: 10, MaxTags: 3, MaxEdits: 3})}
 	n := len(c.Spec.Commits)
 	nw := rapid.IntRange(1, 3).Draw(t, "nwants")
@@ -211,7 +248,7 @@ func check(c Case) evid.Result {
 	}
 
 	// reference model
-	rw := b.Reach(wantIdx, cut)  // what the store can offer for the wants
+	rw := b.Reach(wantIdx, cut) // what the store can offer for the wants
 	rwFull := b.Reach(wantIdx, nil)
 	rhFull := b.Reach(haveIdx, nil) // in a shallow store the weakest reading: the peer has the full history of its haves
 	rh := rhFull
@@ -285,6 +322,19 @@ func check(c Case) evid.Result {
 	if needed > 0 && len(haveIdx) > 0 {
 		res.Labels = append(res.Labels, "nonempty-delta-with-haves")
 	}
+	if c.Recur {
+		res.Labels = append(res.Labels, "family=subtree-recurrence")
+	}
+	if haveKinds["commit"] {
+		re, compl := reintroduced(b, rw, rh)
+		if re {
+			res.Labels = append(res.Labels, "subtree-reintroduced-in-new-commits")
+		}
+		if compl {
+			res.Labels = append(res.Labels, "subtree-reintroduced-complementary-parents")
+			res.NonTrivial = true
+		}
+	}
 	if !shallow {
 		for _, h := range got {
 			i, ok := b.Index[h.String()]
@@ -314,6 +364,93 @@ func check(c Case) evid.Result {
 		res.Labels = append(res.Labels, "git-cross-checked")
 	}
 	return res
+}
+
+type treeEnt struct{ mode, name, id string }
+
+func parseTree(data []byte) []treeEnt {
+	var out []treeEnt
+	for len(data) > 0 {
+		sp := strings.IndexByte(string(data), ' ')
+		nul := strings.IndexByte(string(data), 0)
+		if sp < 0 || nul < sp || len(data) < nul+21 {
+			panic("INFRA: malformed generated tree")
+		}
+		out = append(out, treeEnt{string(data[:sp]), string(data[sp+1 : nul]), hex.EncodeToString(data[nul+1 : nul+21])})
+		data = data[nul+21:]
+	}
+	return out
+}
+
+// subtrees maps every directory path of the tree with object index root to the id of its tree object.
+func subtrees(b *dagx.Built, root int, prefix string, into map[string]string) {
+	for _, e := range parseTree(b.Objs[root].Data) {
+		if e.mode == "40000" {
+			into[prefix+e.name] = e.id
+			subtrees(b, b.Index[e.id], prefix+e.name+"/", into)
+		}
+	}
+}
+
+// reintroduced classifies the shape "the same subtree object enters the history
+// twice among the commits to send": two distinct commits, both reachable from the
+// wants and not from the haves, have the same tree object S at the same directory
+// path while none of their parents has S there. compl: the entries of S that such
+// a commit shares with its parents' directory (the ones a parent diff prunes)
+// are not the same set for the two commits.
+func reintroduced(b *dagx.Built, rw, rh []bool) (re, compl bool) {
+	dirs := make([]map[string]string, len(b.Commits))
+	for i := range b.Commits {
+		dirs[i] = map[string]string{}
+		subtrees(b, b.Roots[i], "", dirs[i])
+	}
+	type intro struct{ shared string }
+	seen := map[string][]intro{} // path + id -> introductions
+	for i, ci := range b.Commits {
+		if !rw[ci] || rh[ci] {
+			continue
+		}
+		var ps []string
+		for p := range dirs[i] {
+			ps = append(ps, p)
+		}
+		sort.Strings(ps)
+		for _, p := range ps {
+			id := dirs[i][p]
+			had := false
+			for _, q := range b.Parents[i] {
+				had = had || dirs[q][p] == id
+			}
+			if had {
+				continue
+			}
+			var shared []string
+			for _, e := range parseTree(b.Objs[b.Index[id]].Data) {
+				for _, q := range b.Parents[i] {
+					if qid, ok := dirs[q][p]; ok {
+						for _, pe := range parseTree(b.Objs[b.Index[qid]].Data) {
+							if pe.name == e.name && pe.id == e.id {
+								shared = append(shared, e.name)
+							}
+						}
+					}
+				}
+			}
+			seen[p+"\x00"+id] = append(seen[p+"\x00"+id], intro{strings.Join(shared, "/")})
+		}
+	}
+	for _, l := range seen {
+		if len(l) < 2 {
+			continue
+		}
+		re = true
+		for _, x := range l[1:] {
+			if x.shared != l[0].shared {
+				compl = true
+			}
+		}
+	}
+	return re, compl
 }
 
 // sharedWithCutParent reports whether object o is reachable from a parent of a
